@@ -14,11 +14,14 @@ Additive constants (fixed here, cf. DESIGN §6-C11):
 * Rank9: 256 bits (one block's counters + the sentinel pair);
 * RankSmall variant k: one block of counters (96, 64, 64, 64, 128 bits) + one upper count (64 bits);
 * Select9: 3 words;
-* Elias–Fano: the sentinel bit + less than two words of rounding (`n ≥ 1`);
-* functions / filters: per shard one segment (`2^s` cells) and one cell, provided the shard has at
-  least two segments' worth of vertices (`2·2^s ≤ ⌈c·maxShard⌉`); for *every* input three
-  segments and one cell (`c11_vfunc_cells_all`) — the minimum graph of three segments of two
-  cells exceeds the first constant for 0, 1, 2 keys (`c11_design_constant_fails_tiny`).
+* Elias–Fano: the sentinel bit + less than two words of rounding (every `n`, `n = 0` included
+  since /repo 76fce19: two words);
+* functions / filters: **three segments and one cell per shard** (`shards·(3·2^s + 1)` cells),
+  for every input (`c11_vfunc_cells_all`, `c11_vfunc_123_all`).  From two segments' worth of
+  vertices upward (`2·2^s ≤ ⌈c·maxShard⌉`) one segment and one cell suffice (`c11_vfunc_cells`);
+  the minimum graph of three segments of two cells (0, 1, 2 keys) is why the general constant has
+  three segments (remark `c11_vfunc_min_graph`).  MWHC logics: three cells, or `3·128` cells per
+  shard when sharded (`c11_mwhc_cells`).
 -/
 namespace Sux.Space
 
@@ -113,12 +116,17 @@ example : select9Words 1024 1024 = 2 + 1 + 4 ∧ 8 * (64 * select9Words 1 1) = 3
 
 /-! ## Elias–Fano (integer part; the logarithm is in `EFReal.lean`) -/
 
-/-- `l = ⌊lg ⌊u/n⌋⌋` -/
-theorem c11_ef_l (n u : Nat) (hn : 0 < n) (h : n ≤ u) :
-    2 ^ efL n u * n ≤ u ∧ u < 2 ^ (efL n u + 1) * n := efL_spec hn h
+/-- `l = ⌊lg ⌊u/N⌋⌋` with `N = max n 1` (every `n`, the empty sequence included);
+`l = 0` when `u < N` -/
+theorem c11_ef_l (n u : Nat) :
+    (max n 1 ≤ u → 2 ^ efL n u * max n 1 ≤ u ∧ u < 2 ^ (efL n u + 1) * max n 1) ∧
+    (u < max n 1 → efL n u = 0) :=
+  ⟨efL_spec', fun h => by unfold efL; rw [if_neg]; omega⟩
 
-/-- the upper-bits vector has at most `3n` bits -/
-theorem c11_ef_high (n u : Nat) (hn : 0 < n) : efHighBits n u ≤ 3 * n := efHighBits_le hn
+example : efL 0 0 = 0 ∧ efL 0 1000000 = 19 ∧ efL 1 1024 = 10 ∧ efL 5 3 = 0 := by decide
+
+/-- the upper-bits vector has at most `n + 2·max n 1` bits (`3n` for `n ≥ 1`, 2 for `n = 0`) -/
+theorem c11_ef_high (n u : Nat) : efHighBits n u ≤ n + 2 * max n 1 := efHighBits_le' n u
 
 /-- words against exact bits: less than two words of rounding -/
 theorem c11_ef_rounding (n u : Nat) :
@@ -126,12 +134,11 @@ theorem c11_ef_rounding (n u : Nat) :
 
 example : efL 1000 1000000 = 9 ∧ efWords 1000 1000000 = 141 + 47 := by decide
 
-/-- **finding**: an empty sequence (`n = 0`) takes one word plus `u + 1` bits, not `O(1)` -/
-theorem c11_ef_empty (u : Nat) : efWords 0 u = 1 + bitVecWords (u + 1) ∧ u < 64 * efWords 0 u := by
-  refine ⟨efWords_zero u, ?_⟩
-  rw [efWords_zero]
-  have := bitVecWords_ge (u + 1)
-  omega
+/-- an empty sequence (`n = 0`) takes two words whatever `u` (one word of low bits, at most two
+upper bits); before /repo 76fce19 it took `u + 1` upper bits -/
+theorem c11_ef_empty (u : Nat) : efWords 0 u = 2 := efWords_zero u
+
+example : efWords 0 0 = 2 ∧ efWords 0 (2 ^ 64 - 1) = 2 ∧ efHighBits 0 (2 ^ 64 - 1) = 2 := by decide
 
 /-! ## static functions and filters -/
 
@@ -150,9 +157,22 @@ theorem c11_vfunc_cells_all {cn cd shards s l m V : Nat}
     cd * vfuncCells l s shards ≤ cn * (shards * m) + cd * (shards * (3 * 2 ^ s + 1)) :=
   vfunc_cells_le_all H2 H3
 
+/-- the documented 1.23 for **every** input with the additive constant of the property (three
+segments and one cell per shard): up to 100 keys `c = 1.23` and there is one shard holding all
+keys; above 100 keys `c ≤ 1.125` and the largest shard passed the builder's 1 % test -/
+theorem c11_vfunc_123_all {n shards s l m V : Nat} (H3 : l = vfuncL V s)
+    (hreg : (shards = 1 ∧ m = n ∧ 100 * V ≤ 123 * n + 100) ∨
+            (shards * 100 * m ≤ 101 * n ∧ 1000 * V ≤ 1125 * m + 1000)) :
+    100 * vfuncCells l s shards ≤ 123 * n + 100 * (shards * (3 * 2 ^ s + 1)) := by
+  rcases hreg with ⟨h1, h2, h3⟩ | ⟨h1, h2⟩
+  · subst h1; subst h2
+    have := vfunc_cells_le_all (shards := 1) h3 H3
+    omega
+  · have := vfunc_cells_le_all_imbalance h1 h2 H3
+    omega
+
 /-- with the builder's 1 % test on the largest shard, from two segments' worth of vertices:
-`cells ≤ 1.01 · c · n + shards · (2^s + 1)`; the additive constant of the property is
-`shards · (2^s + 1)` cells = one segment and one cell per shard -/
+`cells ≤ 1.01 · c · n + shards · (2^s + 1)`: one segment and one cell per shard suffice -/
 theorem c11_vfunc_cells {cn cd n shards s l m V : Nat}
     (H1 : shards * 100 * m ≤ 101 * n) (H2 : cd * V ≤ cn * m + cd) (H3 : l = vfuncL V s)
     (hbig : 2 * 2 ^ s ≤ V) :
@@ -207,14 +227,31 @@ the hypotheses hold, `l = 109`, 113 664 cells = 1.13664 n -/
 example : vfuncL 56514 9 = 109 ∧ vfuncCells 109 9 2 = 113664 ∧ 2 * 100 * 50234 ≤ 101 * 100000 ∧
     1000 * 56514 ≤ 1125 * 50234 + 1000 ∧ 2 * 2 ^ 9 ≤ 56514 := by decide
 
-/-- **finding** (DESIGN §6 constant): for 0, 1, 2 keys the graph has its minimum size of three
-segments of two cells, more than `1.23 n + 2^s + 1` -/
-theorem c11_design_constant_fails_tiny :
+/-- remark (why the general constant has three segments): for 0, 1, 2 keys the graph has its
+minimum size of three segments of two cells, more than `1.23 n + 2^s + 1` but within
+`1.23 n + 3·2^s + 1` -/
+theorem c11_vfunc_min_graph :
     vfuncCells (vfuncL 0 1) 1 1 = 6 ∧ ¬ (100 * 6 ≤ 123 * 0 + 100 * (2 ^ 1 + 1)) ∧
     vfuncCells (vfuncL 2 1) 1 1 = 6 ∧ ¬ (100 * 6 ≤ 123 * 1 + 100 * (2 ^ 1 + 1)) ∧
     vfuncCells (vfuncL 3 1) 1 1 = 6 ∧ ¬ (100 * 6 ≤ 123 * 2 + 100 * (2 ^ 1 + 1)) := by decide
 
-/-- **finding**: `FuseLge3NoShards` at 100 001 keys (`c ≈ 1.168`, `V = 116 802`, `s = 11`):
+/-- MWHC logics (`c = 1.23` always): `cells ≤ 1.23·(shards·m) + shards·3·128`, and
+`cells ≤ 1.23 n + 3` without sharding -/
+theorem c11_mwhc_cells {n shards seg m V : Nat} (H2 : 300 * V ≤ 123 * m + 300)
+    (H3 : seg = mwhcSeg V shards) :
+    100 * mwhcCells seg shards ≤ 123 * (shards * m) + 100 * (shards * (3 * 128)) ∧
+    (shards = 1 → m = n → 100 * mwhcCells seg shards ≤ 123 * n + 100 * 3) := by
+  refine ⟨mwhc_cells_le H2 H3, fun h1 h2 => ?_⟩
+  subst h1; subst h2
+  exact mwhc_cells_le_one H2 H3
+
+/-- **known finding** witness for MWHC: 100 000 keys, `seg = ⌈123000/3⌉ = 41000`: 123 000 cells,
+above `1.135 n + 3` -/
+theorem c11_mwhc_exceeds_1135 :
+    mwhcCells (mwhcSeg 41000 1) 1 = 123000 ∧ 300 * 41000 ≤ 123 * 100000 + 300 ∧
+    ¬ (1000 * 123000 ≤ 1135 * 100000 + 1000 * 3) := by decide
+
+/-- **known finding**: `FuseLge3NoShards` at 100 001 keys (`c ≈ 1.168`, `V = 116 802`, `s = 11`):
 118 784 cells, above `1.135 n + 2^s + 1` -/
 theorem c11_noshards_exceeds_1135 :
     vfuncCells (vfuncL 116802 11) 11 1 = 118784 ∧
